@@ -257,8 +257,33 @@ class Env:
         self.tasks[tname] = (page_cls, tpls)
         return self.tasks[tname]
 
+    SHARED_PAGE = ("<main>{% component 'c07_xs_1' who=name|upper n=nums.1 items=[1, name, {'k': name|lower}] "
+                   "opts={'a': name, 'b': [name|title, 2]} / %}</main>")
+
+    def build_shared(self, spec):
+        """Components for the shared-template task: tag arguments with filters / list / dict literals at two levels."""
+        from django_components import Component, registry
+        tname = spec["name"]
+        if tname in self.tasks:
+            return self.tasks[tname]
+        tpls = {1: "<b>{{ who }}:{{ n }}:{{ items|length }}:{{ opts.b.0 }}</b>"
+                   "{% component 'c07_" + tname + "_2' v=who|lower w=[who, n] / %}",
+                2: "<i>{{ v }}{{ w.1 }}</i>"}
+        gcd = {1: (lambda self, who=None, n=None, items=None, opts=None: {"who": who, "n": n, "items": items, "opts": opts}),
+               2: (lambda self, v=None, w=None: {"v": v, "w": w})}
+        for idx, src in tpls.items():
+            cls = type("C07_%s_%d" % (tname, idx), (Component,), {
+                "template": src, "get_context_data": gcd[idx], "_c07_idx": idx, "__module__": "verif_c07_%s" % tname})
+            registry.register("c07_%s_%d" % (tname, idx), cls)
+            cls.template
+        self.tasks[tname] = (None, tpls)
+        return self.tasks[tname]
+
     def make_fn(self, spec, shared):
         from django.template import Context
+        if spec["kind"] == "shared":
+            page = shared["page"]        # ONE Template object, compiled for this run, rendered by every thread
+            return lambda: page.render(Context({"name": "Nm", "nums": [7, 8]}))
         if spec["kind"] == "slot":
             page_cls, _ = self.build_slot(spec)
             return lambda: page_cls.render(kwargs={"who": "w-" + spec["name"]}, render_dependencies=False)
@@ -301,8 +326,8 @@ class Env:
             cached_template(tpls[idx])
         if cfg.get("pre_all"):
             for spec in family["threads"]:
-                if spec["kind"] in ("render", "slot"):
-                    tpls = (self.build_render(spec) if spec["kind"] == "render" else self.build_slot(spec))[1]
+                if spec["kind"] in ("render", "slot", "shared"):
+                    tpls = {"render": self.build_render, "slot": self.build_slot, "shared": self.build_shared}[spec["kind"]](spec)[1]
                     for idx in sorted(tpls):
                         cached_template(tpls[idx])
         if not cfg.get("ns", True):
@@ -364,6 +389,9 @@ class Env:
         if any(s["kind"] == "media" for s in family["threads"]):
             shared["cls"] = self.fresh_media_class(cfg.get("nested", False))
         self.reset(cfg, family)
+        if any(s["kind"] == "shared" for s in family["threads"]):
+            from django.template import Template
+            shared["page"] = Template(self.SHARED_PAGE)      # after reset: its component templates are fresh too
         fns = {n: self.make_fn(family["threads"][NAMES.index(n)], shared) for n in names}
         if sweep and self.pkg_files is None:
             self.pkg_files = sched.package_files()
@@ -471,6 +499,9 @@ def sweep_families(tier):
     sf("sweep-inj-inj", [T_INJ, T_INJ2])
     sf("sweep-nest-failp", [T_NEST, T_FAILP])
     sf("sweep-media-media", [T_MEDIA, T_MEDIA])
+    # both threads render the SAME Template object, compiled for this run, for the FIRST time: tag arguments are
+    # compiled lazily at first render and that state lives on the nodes of the shared template
+    sf("sweep-shared-template-first-render", [{"kind": "shared", "name": "xs"}, {"kind": "shared", "name": "xs"}])
     return S
 
 
@@ -523,6 +554,8 @@ def family_keymap(family):
             srcs.update(tpls.values())
         elif s["kind"] == "slot":
             srcs.update(e.build_slot(s)[1].values())
+        elif s["kind"] == "shared":
+            srcs.update(e.build_shared(s)[1].values())
     return {src: 10 + i for i, src in enumerate(sorted(srcs))}
 
 
@@ -538,8 +571,8 @@ def item_term(e, tname, tidx, it, keymap, tpls):
 
 
 def task_term(e, spec, tidx, keymap):
-    if spec["kind"] == "slot":
-        return None                      # slot content is outside the model: line-sweep families, direct oracle only
+    if spec["kind"] in ("slot", "shared"):
+        return None                      # slot content / lazily compiled tag arguments are outside the model: line-sweep families, direct oracle only
     if spec["kind"] == "media":
         return "TMedia 1%N"
     _, tpls = e.build_render(spec)
@@ -931,6 +964,42 @@ def plan_jobs(family, solo, tier, rng):
     return jobs
 
 
+def job_sequential(_):
+    """Sequential oracle (no threads): a render that fails must fail the same way every time - a failed first render must
+    not leave half-written state on the shared template / class that changes what LATER renders (of any thread) raise."""
+    from django.template import Context, Template
+    from django_components import Component, registry
+    env()
+    if "c07_seq_1" not in registry.all():
+        registry.register("c07_seq_1", type("C07_seq_1", (Component,), {
+            "template": "<u>{{ v }}</u>", "get_context_data": (lambda self, v=None, **kw: {"v": v}), "__module__": "verif_c07_seq"}))
+    out = []
+    for src in ("{% component 'c07_seq_1' v=who|nosuchfilter / %}",
+                "{% component 'c07_seq_1' v=[who, who|nosuchfilter] / %}",
+                "{% component 'c07_seq_1' v={'a': who|nosuchfilter} / %}",
+                "{% component 'c07_seq_1' v=who|upper / %}"):
+        t = Template(src)
+        seen = []
+        for _ in range(3):
+            try:
+                seen.append(["ok", re.sub(r"<!--.*?-->|data-djc-id-\w+(=\"\")?", "", t.render(Context({"who": "x"})))])
+            except Exception as ex:  # noqa
+                seen.append([type(ex).__name__, str(ex)[-200:]])
+        if any(x != seen[0] for x in seen[1:]):
+            out.append({"template": src, "renders": seen})
+    return out
+
+
+def _dispatch_safe(job):
+    """A crash of the harness must never stand in for a verdict: report it, with the job as replay."""
+    try:
+        return _dispatch(job)
+    except Exception:  # noqa
+        import traceback
+        kind, args = job
+        return [{"error": traceback.format_exc()[-2500:], "job": {"kind": kind, "family": args[0], "rest": repr(args[1:])[:600]}}]
+
+
 def _dispatch(job):
     kind, args = job
     if kind == "sweep":
@@ -991,9 +1060,17 @@ def run(tier, seed):
         # corpus first (direct oracle)
         corpus = load_corpus()
         cjobs = [("list", (c["family"], [[tuple(s) for s in c["segs"]]], bool(c.get("fine")), bool(c.get("sweep")))) for _, c in corpus]
-        cres = pool.map(_dispatch, cjobs)
+        for f in pool.map(job_sequential, [0]):
+            for bad in f:
+                chk.fail("c07-failure-changes-on-repeated-render",
+                         "the same template fails differently when rendered again: %s" % bad["renders"], {"kind": "sequential", **bad})
+            chk.count(("sequential-oracle",), True, kind="sequential-oracle")
+        cres = pool.map(_dispatch_safe, cjobs)
         for (fname, c), recs in zip(corpus, cres):
             d = recs[0]
+            if "error" in d:
+                chk.disagree("harness raised while replaying corpus/%s: %s" % (fname, d["error"]), d["job"])
+                continue
             classify(chk, c["family"], d, stats, "corpus/" + fname)
             chk.count(("corpus", fname), bool(d["bad"]), kind="corpus")
             exp = c.get("expect")
@@ -1017,10 +1094,14 @@ def run(tier, seed):
                 pos = plan[x]["positions"]
                 for c in range(0, len(pos), 25):
                     alljobs.append((fi, ("sweep", (f, x, [y for y in names if y != x], pos[c:c + 25]))))
-        results = pool.map(_dispatch, [j for _, j in alljobs], chunksize=4)
+        results = pool.map(_dispatch_safe, [j for _, j in alljobs], chunksize=4)
     for (fi, _), recs in zip(alljobs, results):
         family = fams[fi]
         for d in recs:
+            if "error" in d:
+                stats["harness_errors"] += 1
+                chk.disagree("the harness raised while running schedules of family %s: %s" % (family["name"], d["error"]), d["job"])
+                continue
             ex = tuple(tuple(x) for x in d["ex"])
             key = (fi, ex)
             if key in seen:
@@ -1047,7 +1128,16 @@ def run(tier, seed):
                 meta.append((family, d))
     stats["wall_impl_s"] = round(time.time() - t_pool)
     t_coq = time.time()
-    bad_idx = C.coq_eval_cases("C07", "sch", IMPORTS, "c07_case", "check_c07", terms, shard=400, timeout=900)
+    bad_idx = []
+    for attempt in (1, 2):
+        try:
+            # the tag is unique per process: several C07 checks (seed runs) may share work/C07 at the same time
+            bad_idx = C.coq_eval_cases("C07", "sch%d" % os.getpid(), IMPORTS, "c07_case", "check_c07", terms, shard=400, timeout=900)
+            break
+        except C.HarnessError as ex:
+            if attempt == 2:
+                chk.disagree("the model could not be evaluated on the executed schedules (coqc failed twice): %s" % str(ex)[-1500:],
+                             {"kind": "model-evaluation-failed", "n_cases": len(terms), "first_case": terms[0][:2000] if terms else None})
     stats["wall_model_s"] = round(time.time() - t_coq)
     stats["wall_proofs_s"] = round(chk.proof["wall_s"]) if chk.proof else -1
     for i in bad_idx[:20]:
